@@ -1,15 +1,1 @@
 package gen
-
-import "github.com/IrineSistiana/mosproxy/verifsim/plan"
-
-func genLimiter(r *rng, seed uint64) *plan.Plan {
-	return &plan.Plan{Version: 1, Seed: seed, Family: "limiter", Focus: "C15", Arm: "unit"}
-}
-
-func genAddr(r *rng, seed uint64) *plan.Plan {
-	return &plan.Plan{Version: 1, Seed: seed, Family: "addr", Focus: "C17", Arm: "addr"}
-}
-
-func genAuth(r *rng, seed uint64) *plan.Plan {
-	return &plan.Plan{Version: 1, Seed: seed, Family: "auth", Focus: "C17", Arm: "auth"}
-}
